@@ -1,4 +1,22 @@
-"""Decision-table extraction shared by C01, C12 and C13: verb/except -> questions asked -> buckets -> modes."""
+"""Decision-table extraction shared by C01, C12 and C13: verb/except -> questions asked -> buckets -> modes.
+
+How the tables are obtained (since the re-engineering against behaviour-preserving refactorings):
+
+  * `run_scenario(repo, Scenario(verb, except, import_))` builds a `Rule()` with the abstract interpreter of rules/absint.py, sets the
+    public `RuleConfiguration` fields to one point of the finite configuration space (flags concrete; subjects, objects and the
+    evaluable symbolic) and interprets the public entry point `Rule.assert_applies(evaluable)` down to - but not into - the graph
+    layer.  The `Run` holds the events: graph questions with their arguments, requirement objects built, AssertionError raises,
+    the matcher / detector / violations objects (all found by role).
+  * `demand_run` re-asks the detector of that run with both query results available and classifies every violation bucket from its
+    add-events (`classify_bucket`): *present* (elements are realisations of a query result, unfiltered = per-pair) or *absent* (keys
+    whose own list of realisations is empty = per-key; anything else = joint).
+  * `Inliner`, `issuing_conditions`, `bucket_wiring`, `data_sources` keep their old signatures (C03 / C05 / C13 import them) but
+    read their answers off those runs; `method_mode` / `classify_helper` at the end of the file are the old syntactic classification,
+    kept unchanged for C05 (layer detector).
+
+No private name of the pipeline is used as an anchor: public API only (`Rule`, `assert_applies`, the fluent vocabulary, the fields of
+`RuleConfiguration`, the three query methods of `EvaluableArchitecture`, `get_rule_violation`), everything else by role.
+"""
 
 from __future__ import annotations
 
